@@ -13,7 +13,7 @@
 import itertools
 from vmon.wsgi import make_environ, call_app
 
-RULE = ('operations over a universe of 14 rules (shared and splitting prefixes, wildcard siblings, filter families) and 7 hook rules (root, inner '
+RULE = ('operations over a universe of 16 rules (shared and splitting prefixes, wildcard siblings, filter families) and 7 hook rules (root, inner '
         'prefixes, a wildcard prefix, a literal sibling of a wildcard, a hook-only leaf): add / add other method / named add / overwrite / duplicate and name-clash rejections / '
         'filter clashes / remove(rule) / remove(name) / remove(prefix*) / add_hook / remove_hook / removals of absent things. exhaustive units: every '
         'history of length <= D over the whole alphabet (D=2 quick, 3 thorough) by re-execution; random units: histories of length 6-30. After each '
@@ -45,10 +45,13 @@ RULES = {
     '/h/x': ('h/x', '/h/x', {}),
     '/h/y': ('h/y', '/h/y', {}),
     '/a/b/<z>': ('a/b/' + W, '/a/b/zed', {'z': 'zed'}),
+    # two rules that go on differently after one filtered wildcard, none ending on the wildcard itself
+    '/i/<n:int>/e': ('i/' + W + '/e', '/i/5/e', {'n': 5}),
+    '/i/<n:int>.j': ('i/' + W + '.j', '/i/5.j', {'n': 5}),
 }
 FAMILIES = [{'/a/<x>', '/a/<x>/c', '/a/<n:int>'}, {'/b/<p:path>', '/b/<p:path>/end'}]
 HOOKS = {'/': '', '/a': 'a', '/a/<x>': 'a/' + W, '/h': 'h', '/ab': 'ab', '/zz': 'zz', '/a/b': 'a/b'}
-EXTRA_PATHS = ['/', '/a/', '/abcd', '/a/5/c', '/a/b/c', '/zz', '/zz/top', '/h', '/h/z', '/b/end', '/b', '/x/d', '/a/b/', '/A', '/a//c', '/ab/']
+EXTRA_PATHS = ['/i/5', '/i/abc', '/i/abc/e', '/i/5.json', '/i/7/e', '/', '/a/', '/abcd', '/a/5/c', '/a/b/c', '/zz', '/zz/top', '/h', '/h/z', '/b/end', '/b', '/x/d', '/a/b/', '/A', '/a//c', '/ab/']
 PREFIXES = ['/a*', '/a/*', '/h/*', '/q*', '/a/b*']
 
 
@@ -326,7 +329,10 @@ def pattern_positions(rule, path):
     for k, a in enumerate(pat):
         if a == W:
             nxt = pat[k + 1:]
-            if rule.startswith('/b/'):          # path filter: up to the look-ahead literal
+            if rule.startswith('/i/'):          # int filter
+                import re as _re
+                j = i + _re.match(r'-?\d+', s[i:]).end()
+            elif rule.startswith('/b/'):          # path filter: up to the look-ahead literal
                 j = s.rfind('/end') if nxt else len(s)
             else:
                 j = s.find('/', i)
@@ -518,6 +524,11 @@ def scripted_histories():
             out.append([('add_hook', h), ('add', r1, 'GET', None, False), ('add', r2, 'GET', None, False), ('remove', r1)])
             out.append([('add', r1, 'GET', None, False), ('add_hook', h), ('add', r2, 'GET', None, False), ('remove_hook', h)])
             out.append([('add_hook', h), ('add', r1, 'GET', None, False), ('remove', r1), ('add', r2, 'GET', None, False)])
+    for a, b in (('/i/<n:int>/e', '/i/<n:int>.j'), ('/a/<x>/c', '/a/<x>'), ('/b/<p:path>/end', '/b/<p:path>'), ('/<y>/d', '/<y>')):
+        for x, y in ((a, b), (b, a)):
+            out.append([('add', x, 'GET', None, False), ('add', y, 'GET', None, False), ('remove', x)])
+            out.append([('add', x, 'GET', None, False), ('add', y, 'GET', None, False), ('remove', x), ('add', x, 'POST', None, False)])
+            out.append([('add', x, 'GET', None, False), ('add', y, 'GET', None, False), ('remove', y), ('remove', x)])
     for r in ('/a/<x>', '/h/x'):
         out.append([('add', r, 'GET', None, False), ('add', r, ('PATCH', 'GET'), 'n1', False), ('remove_name', 'n1'), ('remove', r)])
         out.append([('add', r, 'GET', 'n1', False), ('add', '/ab', 'GET', 'n1', False), ('remove_name', 'n1'), ('add', '/ab', 'GET', 'n1', False)])
